@@ -258,6 +258,11 @@ def run_case(case):
         vals = r.choice([[0, 1, 2], [0.5, 1, 1, 2, INF], None])
         dur = {u: (r.choice(vals) if vals else r.uniform(0.1, 2)) for u in nodes}
         delay = {(u, v): (r.choice(vals) if vals else r.uniform(0, 2.5)) for u in nodes for v in nbrs[u]}
+        unit = r.choice([1.0, 1.0, 1e-10, 1e-13, 1e7])      # the same rule table in another time unit (nanoseconds ... years)
+        if unit != 1.0:
+            dur = {u: x * unit for u, x in dur.items()}
+            delay = {e: x * unit for e, x in delay.items()}
+            bump(res, 'nmt_tables_in_other_time_units')
         exp = perc.kept_arcs(nodes, nbrs, dur, delay)
         orig, tap = capture('nonMarkov_directed_percolate_network_with_timing')
         sim.nonMarkov_directed_percolate_network_with_timing = tap
